@@ -109,13 +109,32 @@ Theorem C09_restore_staged_total : forall e c w args ns,
 Proof. exact restore_staged_total. Qed.
 
 (* a path known to neither is refused: if SOME argument names nothing, the whole
-   command is refused with the world unchanged, whatever the other arguments *)
+   command is refused with the world unchanged, whatever the other arguments
+   (with --staged, "." names the root of HEAD's snapshot: it names nothing only
+   when the snapshot is empty) *)
 Theorem C09_unknown_argument_refuses_all : forall e w stg_mode args a,
   In a args -> staged w a = None ->
   (forall en, In en (idx_of w) -> under_dir a (e_path en) = false) ->
-  (stg_mode = true -> forall c ns, ctx_of w = Some c -> head_nodes c w = Some ns -> get_node ns a = None) ->
+  (stg_mode = true -> forall c ns, ctx_of w = Some c -> head_nodes c w = Some ns ->
+     get_node ns a = None /\ (a = [x2e] -> flatten [] ns = [])) ->
   step (ACmd e (CRestore stg_mode args)) w = (w, OErr, []).
 Proof. exact restore_unknown_refused. Qed.
+
+(* restore --staged . resets the WHOLE staging area to HEAD's snapshot: paths
+   staged but not in HEAD are unstaged, paths of HEAD that were removed from
+   the staging area are re-created, every id is HEAD's; the work tree, objects,
+   refs, HEAD, logs and configs are unchanged *)
+Theorem C09_restore_staged_dot_resets_everything : forall e c w ns,
+  Reachable w -> w_coll w = false -> SmallStore (w_objs w) -> w_inited w = true -> ctx_of w = Some c ->
+  head_nodes c w = Some ns ->
+  staged w [x2e] = None -> stg (flatten [] ns) [x2e] = None ->
+  idx_of w <> [] \/ flatten [] ns <> [] ->
+  exists w' tr, step (ACmd e (CRestore true [[x2e]])) w = (w', OOk [], tr) /\
+    idx_of w' = flatten [] ns /\
+    (forall q, staged w' q = stg (flatten [] ns) q) /\
+    same_wt w w' /\ same_objs w w' /\ ExactFacts.same_meta w w' /\
+    w' = apply_effects tr w /\ Forall (fun ef => is_idx ef = true) tr.
+Proof. exact restore_staged_dot_resets_everything. Qed.
 
 Print Assumptions C09_dir_selects_exactly.
 Print Assumptions C09_under_dir_is_a_prefix_relation.
@@ -129,3 +148,4 @@ Print Assumptions C09_source_patterns_are_the_models.
 Print Assumptions C09_restore_worktree_total.
 Print Assumptions C09_restore_staged_total.
 Print Assumptions C09_unknown_argument_refuses_all.
+Print Assumptions C09_restore_staged_dot_resets_everything.
